@@ -799,11 +799,11 @@ def loop_paths(lf, pull, cap=20000):
     start = pull.term.get("target")
     if start is None:
         return out
-    stack = [(start, frozenset([pull.bb]), ())]
+    stack = [(start, frozenset([pull.bb]), (), {})]
     while stack:
         if len(out) > cap:
             raise sslflow.FlowError("too many paths through the loop of %s" % b.id)
-        bb, seen, ev = stack.pop()
+        bb, seen, ev, env = stack.pop()
         if bb == pull.bb:
             out.append(("iter", ev))
             continue
@@ -811,6 +811,16 @@ def loop_paths(lf, pull, cap=20000):
             continue            # an inner cycle: not a new iteration of this pull
         seen = seen | {bb}
         blk = b.blocks[bb]
+        # boolean temporaries (`matches!` results, drop flags) assigned a constant on this path
+        for st in blk["stmts"]:
+            if st["k"] == "assign" and not st["place"]["p"]:
+                rv = st["rv"]
+                if rv["k"] == "use" and rv["o"].get("k") == "const" and rv["o"].get("ty") == "bool":
+                    env = dict(env)
+                    env[st["place"]["l"]] = rv["o"].get("val") == "true"
+                elif st["place"]["l"] in env:
+                    env = dict(env)
+                    del env[st["place"]["l"]]
         t = blk["term"]
         k = t["k"]
         if k == "return":
@@ -837,7 +847,10 @@ def loop_paths(lf, pull, cap=20000):
             elif callee.startswith(("core::panicking::", "std::rt::begin_panic")):
                 continue
             if "target" in t:
-                stack.append((t["target"], seen, ev))
+                if t.get("dest") and t["dest"]["l"] in env:
+                    env = dict(env)
+                    del env[t["dest"]["l"]]
+                stack.append((t["target"], seen, ev, env))
             continue
         if k == "switch":
             dl = t["discr"]
@@ -847,16 +860,25 @@ def loop_paths(lf, pull, cap=20000):
                 labs = lf.of_place(dl["l"], dl.get("p", []))
                 field_bool = any(e["k"] == "field" and e.get("ty") == "bool" for e in dl.get("p", []))
             succs = [(val, tg) for val, tg in t["targets"]] + [("otherwise", t["otherwise"])]
+            if isinstance(dl, dict) and dl.get("k") in ("copy", "move") and not dl.get("p") and dl["l"] in env and t.get("ty") == "bool":
+                want = "1" if env[dl["l"]] else "0"
+                exact = [(v, tg) for v, tg in t["targets"] if v == want]
+                succs = exact if exact else [("otherwise", t["otherwise"])]
             # `if let Variable::Bool(true) = <callback result>`: every other variant is "not true"
             variants = None
-            if "app" in labs and isinstance(dl, dict) and not dl.get("p"):
+            what = None
+            if isinstance(dl, dict) and not dl.get("p"):
                 for st in blk["stmts"]:
-                    if st["k"] == "assign" and st["place"]["l"] == dl["l"] and st["rv"]["k"] == "discr":
-                        variants = st["rv"].get("variants") or {}
+                    if st["k"] == "assign" and st["place"]["l"] == dl["l"] and st["rv"]["k"] == "discr" and st["rv"].get("enum") == "variable::Variable":
+                        src = lf.of_place(st["rv"]["place"]["l"], st["rv"]["place"]["p"])
+                        if "app" in src or "e0" in src:
+                            variants = st["rv"].get("variants") or {}
+                            what = "app" if "app" in src else "e0"
             for val, tg in succs:
                 e2 = ev
                 if variants is not None and variants.get(val) != "Bool" and (val != "otherwise" or any(variants.get(v) == "Bool" for v, _ in t["targets"])):
-                    e2 = e2 + (("pred", False),)
+                    # not a Bool at all: the callback result is "not true"; the `con` component is "not false"
+                    e2 = e2 + ((("pred", False) if what == "app" else ("con", True)),)
                 for lab in labs:
                     if lab.startswith("eq:"):
                         _, what, cb = lab.split(":")
@@ -865,10 +887,10 @@ def loop_paths(lf, pull, cap=20000):
                         e2 = e2 + ((("con" if what == "e0" else "pred"), truth),)
                     elif field_bool and lab in ("e0", "app") and t.get("ty") == "bool":
                         e2 = e2 + ((("con" if lab == "e0" else "pred"), val != "0"),)
-                stack.append((tg, seen, e2))
+                stack.append((tg, seen, e2, env))
             continue
         for s in b.succ[bb]:
-            stack.append((s, seen, ev))
+            stack.append((s, seen, ev, env))
     return out
 
 
@@ -997,7 +1019,8 @@ def run_loop(ctx):
         res.anchor(k in kinds, "Rust loop of kind %s" % k)
     # positive controls in the fixture crate
     fx = ctx.fixtures
-    want = {"iterloop::collect_ok": None, "iterloop::collect_pull_twice": "pull-once", "iterloop::collect_unguarded": "guarded",
+    want = {"iterloop::collect_ok": None, "iterloop::collect_matches_ok": None, "iterloop::collect_inverted": "after-end",
+            "iterloop::collect_pull_twice": "pull-once", "iterloop::collect_unguarded": "guarded",
             "iterloop::reduce_swapped": "threading", "iterloop::collect_drops": "consume-once", "iterloop::partition_swapped": "halves"}
     for fid, clause in want.items():
         fb = fx.body(fid)
